@@ -31,6 +31,12 @@ func c03Check(c *hist.Case, r *evid.Rec) []evid.Disc {
 		return nil
 	}
 	m := hist.Analyze(run)
+	return withTranscript(deliveryDiscs(c, run, m, r, "C03"), run)
+}
+
+// deliveryDiscs is the per-publish delivery oracle (who must and who must not receive each message), shared by the
+// checks that need it; pre is the property id used in the signatures.
+func deliveryDiscs(c *hist.Case, run *hist.Run, m *hist.Model, r *evid.Rec, pre string) []evid.Disc {
 	var ds []evid.Disc
 	for _, s := range run.Steps {
 		if s.A.Kind != "publish" || s.Skipped || s.Tag == 0 || s.A.Retransmit > 0 {
@@ -86,34 +92,34 @@ func c03Check(c *hist.Case, r *evid.Rec) []evid.Disc {
 					r.Label("receiver-closed-in-step")
 					continue
 				}
-				sig := "C03-missing-delivery"
+				sig := pre + "-missing-delivery"
 				if cid == ti.CID {
 					for _, st := range sn.Subs[cid] {
 						if st.Opts.NoLocal && reftopic.MatchSub(st.Filter, ti.Topic) {
-							sig = "C03-missing-own-message-nolocal-overlap"
+							sig = pre + "-missing-own-message-nolocal-overlap"
 						}
 					}
 				}
 				ds = append(ds, evid.D(sig, "step %d: %s published m%d on %q; %s holds matching subscription(s) %s but received nothing", s.I, ti.CID, s.Tag, ti.Topic, cid, subList(ent[cid])))
 			case want && len(got) > 1:
-				ds = append(ds, evid.D("C03-duplicate-delivery", "step %d: m%d on %q delivered %d times to %s (subscriptions %s)", s.I, s.Tag, ti.Topic, len(got), cid, subList(ent[cid])))
+				ds = append(ds, evid.D(pre+"-duplicate-delivery", "step %d: m%d on %q delivered %d times to %s (subscriptions %s)", s.I, s.Tag, ti.Topic, len(got), cid, subList(ent[cid])))
 			case !want && len(got) > 0:
-				sig := "C03-unentitled-delivery"
+				sig := pre + "-unentitled-delivery"
 				if cid == ti.CID && len(sn.MatchingAll(cid, ti.Topic)) > 0 {
-					sig = "C03-nolocal-ignored"
+					sig = pre + "-nolocal-ignored"
 				}
 				ds = append(ds, evid.D(sig, "step %d: m%d on %q delivered to %s which holds no entitling subscription (its subscriptions: %s)", s.I, s.Tag, ti.Topic, cid, subKeys(sn.Subs[cid])))
 			}
 			for _, g := range got {
 				if g.Dup {
-					ds = append(ds, evid.D("C03-first-transmission-dup", "step %d: first transmission of m%d to %s has DUP set", s.I, s.Tag, cid))
+					ds = append(ds, evid.D(pre+"-first-transmission-dup", "step %d: first transmission of m%d to %s has DUP set", s.I, s.Tag, cid))
 				}
 				if g.Topic != ti.Topic && g.Props.TopicAlias == nil {
-					ds = append(ds, evid.D("C03-topic-changed", "step %d: m%d published on %q arrived at %s on %q", s.I, s.Tag, ti.Topic, cid, g.Topic))
+					ds = append(ds, evid.D(pre+"-topic-changed", "step %d: m%d published on %q arrived at %s on %q", s.I, s.Tag, ti.Topic, cid, g.Topic))
 				}
 				if p.Version == 5 && ti.Version == 5 {
 					if d := appPropsDiff(&ti.Props, &g.Props, p); d != "" {
-						ds = append(ds, evid.D("C03-properties-changed", "step %d: m%d delivered to %s with changed application properties: %s", s.I, s.Tag, cid, d))
+						ds = append(ds, evid.D(pre+"-properties-changed", "step %d: m%d delivered to %s with changed application properties: %s", s.I, s.Tag, cid, d))
 					}
 				}
 			}
@@ -125,7 +131,7 @@ func c03Check(c *hist.Case, r *evid.Rec) []evid.Disc {
 			}
 		}
 	}
-	return withTranscript(ds, run)
+	return ds
 }
 
 func subList(ms []hist.SubState) string {
